@@ -35,7 +35,7 @@ RULE = ("systematic population (fault enumeration): for each of 9 builder base i
         "(found MZ / config / marker / header, or raised ValueError after partial parsing); distinct = distinct digest")
 ASSUMPTIONS = [
     "reader is a full-read seekable file (SimFile == BytesIO semantics; from_path uses a real scratch file)",
-    "termination is judged by a reader-call budget (50x the fault-free cost, at least 20M calls) and a stall detector "
+    "termination is judged by a reader-call budget (3000 calls per input byte, at least 6M: > 50x the fault-free cost of every base image) and a stall detector "
     "(20000 consecutive empty reads); a loop that performs no I/O would only hit the wall-clock backstop",
     "documented outcomes: BeaconConfig | ValueError (from_*), XorEncodedFile | ValueError, Optional/tuple values of the "
     "pe helpers, list of ArtifactKitPayload, HttpRequest/HttpResponse | ValueError (subclasses of ValueError count as ValueError)",
@@ -463,7 +463,7 @@ def execute(plan: dict) -> Result:
         res.probes["http_shaped"] += 1
     if any(f["kind"] == "splice" for f in faults):
         res.probes["splice"] += 1
-    limit = max(20_000_000, 3000 * len(img))
+    limit = max(6_000_000, 3000 * len(img))
     path = None
 
     def check(entry, fn, ok_types, allow_none=False):
